@@ -256,9 +256,6 @@ class Model:
         if c is None:
             return False
         if c[0] == "ext":
-            for o in self.ov:
-                if o["start"] <= c[1] <= o["end"] and o["kind"] == "card" and c[1] - o["start"] >= o["size"]:
-                    return False
             if self.ex == "py-mem" and self.cfg.get("rom_len") and c[1] >= 0xFFF00:
                 return False
         return True
@@ -279,7 +276,9 @@ class Model:
                 return self.absent_seen.get(a)
             if k == "card":
                 off = a - o["start"]
-                return o["data"].get(off, 0) if off < o["size"] else None
+                # beyond a card smaller than the slot: nothing is mapped — whatever is read there first must stay
+                # (no store latches, and no store elsewhere shows through)
+                return o["data"].get(off, 0) if off < o["size"] else self.absent_seen.get(a)
             if k == "rom":
                 if o.get("len") and a - o["start"] >= o["len"]:
                     return self._ext_backing(self._phys(a))      # window not covered by the image
@@ -339,6 +338,10 @@ def _edges(cfg: Dict[str, Any], ex: str) -> List[int]:
                 e += [win + (lo & 0x7FFF) - 1, win + (lo & 0x7FFF), win + (hi & 0x7FFF), win + (hi & 0x7FFF) - 1]
     if isinstance(cfg["card"], int):
         e += [0x40000 + cfg["card"] - 1, 0x40000 + cfg["card"] - 2]
+        if cfg["card"] < 0x10000:
+            # the slot beyond a small card, and the addresses a mirrored decode would fold onto the card
+            e += [0x40000 + cfg["card"], 0x40000 + cfg["card"] + 1, 0x40123, 0x40123 + cfg["card"], 0x40001,
+                  0x40001 + cfg["card"]]
     if cfg.get("rom_len"):
         end = 0xC0000 + cfg["rom_len"]
         e += [end - 2, end - 1, end, end + 1, end + 0x1000, 0xFFEFE, 0xFFEFF]
